@@ -217,8 +217,8 @@ def run(ctx):
                                     "kind": "single"}
                             try:
                                 check_single(cls, t, p)
-                            except Violation as v:
-                                ctx.fail_now(v, case)
+                            except Exception as v:
+                                ctx.fail_exc(v, case)
                         ctx.count(len(pars), labels=(f"{cls}:single",))
                 row_ts = []
                 seen = set()
@@ -240,8 +240,8 @@ def run(ctx):
                                     nt += 1
                                 try:
                                     check_pair(cls, t, p, t2, p2, D)
-                                except Violation as v:
-                                    ctx.fail_now(v, {
+                                except Exception as v:
+                                    ctx.fail_exc(v, {
                                         "cls": cls, "t": list(t), "p": p,
                                         "t2": list(t2), "p2": p2})
                     sample = None
